@@ -3,6 +3,7 @@ package sim
 import (
 	"encoding/json"
 	"fmt"
+	"sort"
 	"strings"
 
 	"pgregory.net/rapid"
@@ -21,6 +22,9 @@ type MonC19 struct {
 	sent     int
 	armed    bool
 	armT     int // requests issued before arming are not governed by the throttle under test
+	perItem  bool
+	acc, res bool
+	preNames map[string]bool // resources some client held when the reset was sent
 }
 
 func NewMonC19() *MonC19 { m := &MonC19{Alive: 1}; m.init("C19"); return m }
@@ -59,6 +63,9 @@ type c19Meta struct {
 	Expected int    `json:"expected"`
 	Alive    int    `json:"alive"`
 	Arm      bool   `json:"arm"`
+	PerItem  bool   `json:"peritem,omitempty"` // judge progress per subscription / resource instead of by total count
+	Acc      bool   `json:"acc,omitempty"`
+	Res      bool   `json:"res,omitempty"`
 }
 
 func (m *MonC19) OnStepEnd(w *World, step int) {
@@ -66,6 +73,15 @@ func (m *MonC19) OnStepEnd(w *World, step int) {
 		var c c19Meta
 		if json.Unmarshal([]byte(w.Script[step].P), &c) == nil {
 			m.Mode, m.Limit, m.expected, m.Alive, m.armed = c.Mode, c.Limit, c.Expected, c.Alive, c.Arm
+			m.perItem, m.acc, m.res = c.PerItem, c.Acc, c.Res
+			if c.PerItem && m.preNames == nil {
+				m.preNames = map[string]bool{}
+				for _, cl := range w.Clients {
+					for rid := range cl.Ref.Held {
+						m.preNames[rid] = true
+					}
+				}
+			}
 			if c.Arm && (c.Alive <= 1 || m.armT == 0) {
 				m.sent = 0
 				m.armT = w.now()
@@ -91,6 +107,9 @@ func (m *MonC19) OnEnd(w *World) []Violation {
 	if m.armed && m.expected >= 0 && m.sent != m.expected && w.Failed == "" {
 		m.violate(w, "governed_requests_not_all_sent", "%s throttle limit %d: %d governed requests were sent in total, expected %d (nothing is pending and the system is quiescent)", m.Mode, m.Limit, m.sent, m.expected)
 	}
+	if m.armed && m.perItem && w.Failed == "" && w.Deadlock == "" && w.mq.PendingCount() == 0 {
+		m.progressPerItem(w)
+	}
 	if m.Limit > 0 && m.expected > m.Limit {
 		m.class("fanout_exceeds_limit")
 	}
@@ -98,6 +117,53 @@ func (m *MonC19) OnEnd(w *World) []Violation {
 		m.class("bound_reached")
 	}
 	return m.viols
+}
+
+// progressPerItem: at the quiescent end, with nothing pending, every
+// subscription that is still held directly on an open connection has had its
+// access re-requested since the reset, and every resource that is still held by
+// some client has been re-fetched since the reset - whatever was unsubscribed,
+// closed or answered with an error in between.
+func (m *MonC19) progressPerItem(w *World) {
+	accSeen := map[string]bool{} // cid|name
+	getSeen := map[string]bool{}
+	for _, e := range w.Log() {
+		if e.T < m.armT || e.Kind != "mq_req" {
+			continue
+		}
+		if strings.HasPrefix(e.Subject, "access.") {
+			accSeen[e.CID+"|"+e.Subject[7:]] = true
+		} else if strings.HasPrefix(e.Subject, "get.") {
+			getSeen[e.Subject[4:]] = true
+		}
+	}
+	for _, c := range w.Clients {
+		if !c.Dialed || c.Closed || c.EOF || c.Ref.Closed {
+			continue
+		}
+		for rid, n := range c.Ref.Direct {
+			if n <= 0 || c.Ref.AmbigDirect[rid] {
+				continue
+			}
+			if _, held := c.Ref.Held[rid]; !held {
+				continue
+			}
+			if m.acc && !accSeen[c.CID+"|"+rid] {
+				m.viols = append(m.viols, Violation{Property: "C19", Class: "access_recheck_never_sent", Step: w.step, Conn: c.Idx, RID: rid, T: w.now(),
+					Message: fmt.Sprintf("reset throttle limit %d: c%d still holds %s directly, nothing is pending, yet no access request for it was sent since the reset", m.Limit, c.Idx, rid)})
+				return
+			}
+		}
+		if m.res {
+			for rid := range c.Ref.Held {
+				if m.preNames[rid] && !getSeen[rid] {
+					m.viols = append(m.viols, Violation{Property: "C19", Class: "refetch_never_sent", Step: w.step, Conn: c.Idx, RID: rid, T: w.now(),
+						Message: fmt.Sprintf("reset throttle limit %d: c%d still holds %s, nothing is pending, yet no get request for it was sent since the reset", m.Limit, c.Idx, rid)})
+					return
+				}
+			}
+		}
+	}
 }
 
 func c19Config(t *rapid.T, p *Profile) WorldConfig {
@@ -265,7 +331,15 @@ func c19Scenario(t *rapid.T, w *World, p *Profile) {
 		expected += subs
 	}
 	payload += `}`
-	setMeta(w, c19Meta{Mode: "reset", Limit: limit, Expected: expected, Alive: 1, Arm: true})
+	// disturbed: while the throttle works through its queue, clients unsubscribe
+	// and disconnect and the service answers with errors; progress is then judged
+	// per subscription and resource, not by the total
+	disturbed := limit > 0 && rapid.IntRange(0, 2).Draw(t, "disturbed") == 0
+	if disturbed {
+		setMeta(w, c19Meta{Mode: "reset", Limit: limit, Expected: -1, Alive: 1, Arm: true, PerItem: true, Acc: withAcc, Res: withRes})
+	} else {
+		setMeta(w, c19Meta{Mode: "reset", Limit: limit, Expected: expected, Alive: 1, Arm: true})
+	}
 	w.Exec(Op{K: "sysreset", P: payload})
 	if m.Limit == 0 {
 		if got := m.governed(w); got != m.expected {
@@ -274,11 +348,15 @@ func c19Scenario(t *rapid.T, w *World, p *Profile) {
 	}
 	if rapid.IntRange(0, 4).Draw(t, "overlap") == 0 && m.Limit > 0 {
 		// a second reset overlapping the first: two throttles alive; re-fetches already outstanding are not repeated
-		setMeta(w, c19Meta{Mode: "reset", Limit: limit, Expected: -1, Alive: 2, Arm: true})
+		setMeta(w, c19Meta{Mode: "reset", Limit: limit, Expected: -1, Alive: 2, Arm: true, PerItem: disturbed, Acc: withAcc, Res: withRes})
 		w.Exec(Op{K: "sysreset", P: payload})
 		m.class("overlapping_resets")
 	}
-	answerAll(t, w, policy, "")
+	if disturbed {
+		c19Disturbed(t, w, m, policy)
+	} else {
+		answerAll(t, w, policy, "")
+	}
 	if m.Limit > 0 && m.expected > m.Limit && policy != "oldest" {
 		m.nontriv = true
 	}
@@ -287,6 +365,92 @@ func c19Scenario(t *rapid.T, w *World, p *Profile) {
 	}
 	if nconn >= 16 {
 		m.class("many_connections_one_resource")
+	}
+}
+
+// c19Disturbed answers everything in the policy order, interleaved with
+// unsubscribes of resources whose re-check may still be waiting, connection
+// closes, and error answers.
+func c19Disturbed(t *rapid.T, w *World, m *MonC19, policy string) {
+	m.class("disturbed_reset")
+	for i := 0; i < 3000; i++ {
+		pend := w.PendingSorted()
+		if len(pend) == 0 {
+			return
+		}
+		switch rapid.IntRange(0, 9).Draw(t, "disturb") {
+		case 0, 1: // unsubscribe something that is held
+			var cs []*Client
+			for _, c := range w.Clients {
+				if c.Dialed && !c.Closed && !c.EOF {
+					cs = append(cs, c)
+				}
+			}
+			if len(cs) > 0 {
+				c := cs[rapid.IntRange(0, len(cs)-1).Draw(t, "dconn")]
+				var rids []string
+				for rid, n := range c.Ref.Direct {
+					if n > 0 {
+						rids = append(rids, rid)
+					}
+				}
+				sort.Strings(rids)
+				if len(rids) > 0 {
+					rid := rids[rapid.IntRange(0, len(rids)-1).Draw(t, "drid")]
+					id := c.NextID
+					c.NextID++
+					w.Exec(Op{K: "creq", C: c.Idx, ID: id, M: "unsubscribe." + rid})
+					m.class("unsubscribe_during_throttled_reset")
+					m.nontriv = true
+				}
+			}
+			continue
+		case 2:
+			if rapid.IntRange(0, 2).Draw(t, "dclose") == 0 {
+				var cs []*Client
+				for _, c := range w.Clients {
+					if c.Dialed && !c.Closed && !c.EOF {
+						cs = append(cs, c)
+					}
+				}
+				if len(cs) > 1 {
+					c := cs[rapid.IntRange(0, len(cs)-1).Draw(t, "dconn")]
+					w.Exec(Op{K: "close", C: c.Idx})
+					m.class("close_during_throttled_reset")
+				}
+			}
+			continue
+		}
+		pick := pend[0]
+		switch policy {
+		case "oldest":
+			for _, p := range pend {
+				if p.P.Seq < pick.P.Seq {
+					pick = p
+				}
+			}
+		case "newest":
+			for _, p := range pend {
+				if p.P.Seq > pick.P.Seq {
+					pick = p
+				}
+			}
+		default:
+			pick = pend[rapid.IntRange(0, len(pend)-1).Draw(t, "pick")]
+		}
+		op := Op{K: "ans", S: pick.P.Subject, Q: pick.P.Query, A: actorEnc(pick.Actor), N: pick.Ord, O: "ok"}
+		if rapid.IntRange(0, 7).Draw(t, "derr") == 0 {
+			if rapid.Bool().Draw(t, "dtimeout") {
+				op.O = "timeout"
+			} else {
+				op.O, op.P = "err", "system.internalError"
+			}
+			m.class("error_answer_during_throttled_reset")
+		}
+		w.Exec(op)
+		if w.Failed != "" || w.Deadlock != "" {
+			return
+		}
 	}
 }
 
